@@ -219,6 +219,9 @@ func Execute(prefix []int, opts Options, names []string, bodies []func()) *Run {
 				return
 			}
 			body()
+			if !r.aborted {
+				observe(t) // the end of the body closes the thread's last segment
+			}
 		}()
 	}
 	for range bodies {
@@ -429,6 +432,19 @@ func (r *Run) kindOn(k Kind) bool {
 	return r.opts.Kinds == 0 || r.opts.Kinds&(1<<k) != 0
 }
 
+// OnPoint, if set, is called on the running harness thread whenever it reaches a scheduling
+// point (before the explorer decides who continues): an observer that samples state at
+// the granularity at which the explorer interleaves. It runs without scheduling points.
+var OnPoint func(t *Thread)
+
+func observe(t *Thread) {
+	if f := OnPoint; f != nil {
+		t.noPoint++
+		f(t)
+		t.noPoint--
+	}
+}
+
 // PointAt is a scheduling point: the explorer may switch to another thread here.
 func PointAt(kind Kind, label string) {
 	t := Cur()
@@ -439,6 +455,7 @@ func PointAt(kind Kind, label string) {
 	if !r.kindOn(kind) {
 		return
 	}
+	observe(t)
 	t.Steps++
 	r.pick(t, true, kind, label)
 }
@@ -452,6 +469,7 @@ func Yield(label string) {
 		return
 	}
 	r := active.Load()
+	observe(t)
 	t.Steps++
 	r.pickOrd(t, true, true, KYield, label)
 }
@@ -501,6 +519,7 @@ func Block(obj interface{}, label string) {
 		return
 	}
 	r := active.Load()
+	observe(t)
 	t.blocked = obj
 	r.pick(t, false, KWait, label)
 }
@@ -514,6 +533,7 @@ func BlockSoft(obj interface{}, label string) {
 		return
 	}
 	r := active.Load()
+	observe(t)
 	t.blocked, t.soft = obj, true
 	r.pick(t, false, KWait, label)
 	t.soft = false
@@ -596,6 +616,9 @@ func Go(fn func()) {
 			return
 		}
 		fn()
+		if !r.aborted {
+			observe(nt)
+		}
 	}()
 	<-reg
 }
